@@ -58,6 +58,7 @@ struct World {
   int accept_calls = 0, delivered = 0, dropped = 0, scripted_fail = 0, fatal_seen = 0, retri_seen = 0, errcb_runs = 0;
   int free_in_cb = 0, free_with_queue = 0, toggle_with_queue = 0, setcb_changes = 0, incb_actions = 0, tcp_used = 0, nlisteners = 0;
   int disabled_with_queue_turns = 0, threadsafe = 0, deferred = 0; int sticky_fd = -1;
+  bool inj_pending = false; int inj_pass_left = 0, inj_errno = 0;   // the enumerated fault (survives "clear scripts")
 };
 World *W;
 
@@ -119,6 +120,7 @@ int identify(Lst &l, int li, int fd) {
 void io_hook(const struct sim_io_rec *r, void *) {
   if (r->kind != SYS_ACCEPT || !W) return;
   World &w = *W; int li = -1;
+  if (w.inj_pending) { if (w.inj_pass_left > 0) w.inj_pass_left--; else w.inj_pending = false; }
   for (int i = 0; i < MAXL; i++) if (w.L[i].created && !w.L[i].destroyed && w.L[i].lfd == r->fd) li = i;
   if (li < 0) return;
   Lst &l = w.L[li];
@@ -260,7 +262,9 @@ void act(int li, int kind, bool in_cb) {
   const char *pre = in_cb ? "    in-cb " : "";
   if (kind == 6) { do_connect(li, in_cb); return; }
   if (kind == 9) { if (w.cl.empty()) return; int i = s.below((uint32_t)w.cl.size()); Client &c = w.cl[i]; if (!c.closed) { TR("%sclient %d closes", pre, i); close(c.fd); c.closed = true; } return; }
-  if (kind == 10) { TR("%sclear accept scripts", pre); sim_script_clear(); w.scripts = 0; w.sticky_fd = -1; for (auto &x : w.L) x.sticky = false; return; }
+  if (kind == 10) { TR("%sclear accept scripts", pre); sim_script_clear(); w.scripts = 0; w.sticky_fd = -1; for (auto &x : w.L) x.sticky = false;
+    if (w.inj_pending) { for (int k = 0; k < w.inj_pass_left; k++) sim_script(SYS_ACCEPT, -1, ACT_PASS, 0); sim_script(SYS_ACCEPT, -1, ACT_FAIL, w.inj_errno); w.scripts = w.inj_pass_left + 1; }
+    return; }
   if (!l.created || l.user_freed) return;
   switch (kind) {
     case 2: case 3: case 13: if (kind == 3 || (kind == 13 && s.flag())) {
@@ -356,7 +360,7 @@ RunResult run_case(const uint8_t *data, size_t size, int inject_at, int run_no) 
   int enum_mode = s.below(2); int inj_errno = ERRNOS[s.below(sizeof ERRNOS / sizeof ERRNOS[0])];
   if (inject_at >= 0) { TR("=== re-run %d: accept4 call #%d fails with %s", run_no, inject_at, ename(inj_errno));
     for (int k = 0; k < inject_at; k++) sim_script(SYS_ACCEPT, -1, ACT_PASS, 0);
-    sim_script(SYS_ACCEPT, -1, ACT_FAIL, inj_errno); w.scripts += inject_at + 1; }
+    sim_script(SYS_ACCEPT, -1, ACT_FAIL, inj_errno); w.scripts += inject_at + 1; w.inj_pending = true; w.inj_pass_left = inject_at; w.inj_errno = inj_errno; }
   struct event_config *cfg = event_config_new();
   int backend = s.below(4);
   static const char *AVOID[][3] = {{nullptr}, {nullptr}, {"epoll", nullptr}, {"epoll", "poll", nullptr}};
